@@ -252,6 +252,7 @@ def run(chk, tier):
     chk.guard('C19.s', lambda: c19.rule_released_arguments(chk, prog, tier))    # freed memory that is read again (a spelling printed in a diagnostic) holds what the allocator left: not the same text in every build
     chk.guard('C16.b', lambda: c16.rule_hash(chk, prog, tier))
     chk.guard('C01.a', lambda: c01.rule_binop(chk, prog, tier))
+    chk.guard('C01.e', lambda: c01.rule_jnz(chk, prog, tier))      # the compiler's own code branches on 64-bit values (sizes, hashes, constants): the whole value is tested
     from props import c05
     chk.guard('C05.c', lambda: c05.rule_binary_types(chk, prog, tier))     # the operand conversions the compiler's own arithmetic (eval.c: 64-bit shifts, comparisons) is compiled with
     from props import c03
